@@ -36,7 +36,7 @@ if ef.exists():
     if isinstance(entries, dict):
         entries = entries.get("findings", entries.get("entries", []))
     kf = json.loads((V / "known_findings.json").read_text())
-    fixed = [e for e in entries if e.get("status") == "fixed"]
+    fixed = [e for e in entries if e.get("status") == "fixed" and e.get("commit") in (None, "PENDING")]   # entries that wait for a commit of THIS batch
     for i, e in enumerate(fixed):
         if i < len(shas) and e.get("commit") in (None, "PENDING"):
             e["commit"] = shas[i]; e["what"] = e.get("what", "").replace("PENDING", shas[i])
